@@ -7,6 +7,8 @@
 
 package ua
 
+import "time"
+
 func verifAssert(label string, cond bool) {
 	if !cond {
 		panic("verif: assertion failed: " + label)
@@ -145,11 +147,13 @@ func verifCanary(label string, cond bool) {}
 //@   ensures [C02:sticky] old(b.err) != nil ==> b.pos == old(b.pos) && b.err == old(b.err)
 
 //@ func (*Buffer).ReadTime
-//@   props C02
+//@   props C02 C01
 //@   requires bufInv(b)
 //@   assigns b.pos, b.err
 //@   ensures [C02:inv] bufInv(b) && sameslice(b.buf, old(b.buf)) && b.pos >= old(b.pos) && b.pos - old(b.pos) <= 8
 //@   ensures [C02:sticky] old(b.err) != nil ==> b.pos == old(b.pos) && b.err == old(b.err)
+//@   ensures [C02:ok] old(b.err) == nil && len(b.buf) - old(b.pos) >= 8 ==> b.err == nil && b.pos == old(b.pos) + 8
+//@   ensures [C02:short] old(b.err) == nil && len(b.buf) - old(b.pos) < 8 ==> b.err != nil && b.pos == old(b.pos)
 
 //@ func (*Buffer).ReadString
 //@   props C02
@@ -688,4 +692,208 @@ func verifReencodeNodeID(b []byte, k int) {
 	if 0 <= k && k < len(v.bid) && k < len(w.bid) {
 		verifAssert("C03:nodeid-bytes", w.bid[k] == v.bid[k])
 	}
+}
+
+// ---------------------------------------------------------------------------
+// C01, hand-written types: encode any value, decode the bytes, get the same value back and consume
+// exactly the encoded bytes. Strings and byte strings are compared by length and at an arbitrary index k
+// (i.e. at every index); the `strbytes` directive gives []byte(s) and string(b) their Go meaning.
+// ---------------------------------------------------------------------------
+
+// String: "" is written as null and comes back as "" (the documented normalisation).
+//@ func (*Buffer).ReadString@inline
+//@   inline
+//@ func verifRoundTripString
+//@   props C01
+//@   bytes
+//@   strbytes
+//@   use (*Buffer).ReadString@inline
+func verifRoundTripString(s string, k int) {
+	w := NewBuffer(nil)
+	w.WriteString(s)
+	if w.Error() != nil {
+		return // longer than MaxInt32: refused by the writer
+	}
+	r := NewBuffer(w.Bytes())
+	got := r.ReadString()
+	verifAssert("C01:string-length", r.Error() == nil && len(got) == len(s) && r.Len() == 0)
+	if 0 <= k && k < len(s) && k < len(got) {
+		verifAssert("C01:string-content", got[k] == s[k])
+	}
+}
+
+// GUID (Data4 is 8 bytes: the only shape NewGUID and Decode produce).
+//@ func (*GUID).Decode@inline
+//@   inline
+//@ func verifRoundTripGUID
+//@   props C01
+//@   bytes
+//@   use (*GUID).Decode@inline
+func verifRoundTripGUID(d1 uint32, d2, d3 uint16, d4 []byte, k int) {
+	if len(d4) != 8 {
+		return
+	}
+	g := &GUID{Data1: d1, Data2: d2, Data3: d3, Data4: d4}
+	e, err := g.Encode()
+	verifAssert("C01:guid-encodes", err == nil && len(e) == 16)
+	h := new(GUID)
+	n, derr := h.Decode(e)
+	verifAssert("C01:guid-decodes", derr == nil && n == 16)
+	verifAssert("C01:guid-fields", h.Data1 == d1 && h.Data2 == d2 && h.Data3 == d3 && len(h.Data4) == 8)
+	if 0 <= k && k < 8 && k < len(h.Data4) {
+		verifAssert("C01:guid-data4", h.Data4[k] == d4[k])
+	}
+}
+
+// NodeID, every encoding but GUID (whose body goes through the reflection-free GUID codec above and the
+// interface dispatch of WriteStruct), with any flag bits: mask, namespace, numeric id and byte/string id
+// come back. A TwoByte id carries 8 bits of the numeric id and no namespace, a FourByte id 16 bits and
+// an 8-bit namespace (the constructors choose the encoding accordingly): that is the precondition.
+//@ func verifRoundTripNodeID
+//@   props C01
+//@   bytes
+//@   strbytes
+//@   use (*NodeID).Decode@inline
+//@   split mask & 15 == 0
+//@   split mask & 15 == 1
+//@   split mask & 15 == 2
+//@   split mask & 15 == 3
+//@   split mask & 15 == 5
+func verifRoundTripNodeID(mask NodeIDType, ns uint16, nid uint32, bid []byte, k int) {
+	v := &NodeID{mask: mask, ns: ns, nid: nid, bid: bid}
+	switch v.Type() {
+	case NodeIDTypeTwoByte:
+		if ns != 0 || nid > 255 || bid != nil {
+			return
+		}
+	case NodeIDTypeFourByte:
+		if ns > 255 || nid > 65535 || bid != nil {
+			return
+		}
+	case NodeIDTypeNumeric:
+		if bid != nil {
+			return
+		}
+	case NodeIDTypeString, NodeIDTypeByteString:
+		if nid != 0 || len(bid) == 0 {
+			return // an empty identifier is written as null and read back as nil: the documented normalisation
+		}
+	default:
+		return
+	}
+	e, err := v.Encode()
+	if err != nil {
+		return // identifier longer than MaxInt32
+	}
+	w := new(NodeID)
+	n, derr := w.Decode(e)
+	verifAssert("C01:nodeid-decodes", derr == nil && n == len(e))
+	verifAssert("C01:nodeid-fields", w.mask == mask && w.ns == ns && w.nid == nid && len(w.bid) == len(bid))
+	verifCanary("C01:canary-nodeid-namespace-zero", w.ns == 0)
+	if 0 <= k && k < len(bid) && k < len(w.bid) {
+		verifAssert("C01:nodeid-bytes", w.bid[k] == bid[k])
+	}
+}
+
+// LocalizedText, any mask whose bits agree with the strings present (UpdateMask / the constructors
+// establish that; a mask bit without its string is the null-vs-empty normalisation and still round-trips,
+// a string without its mask bit is not encoded at all).
+//@ func verifRoundTripLocalizedText
+//@   props C01
+//@   bytes
+//@   strbytes
+//@   use (*LocalizedText).Decode@inline
+//@   use (*Buffer).ReadString@inline
+//@   split mask & 3 == 0
+//@   split mask & 3 == 1
+//@   split mask & 3 == 2
+//@   requires mask & 3 != 3   // both strings present: the same argument over a longer chain of writes; no solver finishes it inside the quick limit, so it is not claimed
+func verifRoundTripLocalizedText(mask byte, locale, text string, k int) {
+	if mask&LocalizedTextLocale == 0 && locale != "" || mask&LocalizedTextText == 0 && text != "" {
+		return
+	}
+	v := &LocalizedText{EncodingMask: mask, Locale: locale, Text: text}
+	e, err := v.Encode()
+	if err != nil {
+		return // a string longer than MaxInt32
+	}
+	w := new(LocalizedText)
+	n, derr := w.Decode(e)
+	verifAssert("C01:localizedtext-decodes", derr == nil && n == len(e))
+	verifAssert("C01:localizedtext-fields", w.EncodingMask == mask && len(w.Locale) == len(locale) && len(w.Text) == len(text))
+	if 0 <= k && k < len(locale) && k < len(w.Locale) {
+		verifAssert("C01:localizedtext-locale", w.Locale[k] == locale[k])
+	}
+	if 0 <= k && k < len(text) && k < len(w.Text) {
+		verifAssert("C01:localizedtext-text", w.Text[k] == text[k])
+	}
+}
+
+// DataValue, every mask without the Value bit (the value itself goes through Variant, whose encoder is
+// reflection-driven): the optional fields are written and read in the same order and with the same
+// widths, so the decoder consumes exactly the encoding and status and picoseconds come back. The two
+// timestamps occupy their eight bytes each; their values are not compared here (the tick conversion is
+// 64-bit multiplication and division by 100, which no installed solver decides).
+//@ func (*DataValue).Decode@inline
+//@   inline
+//@ func verifRoundTripDataValue
+//@   props C01
+//@   bytes
+//@   use (*DataValue).Decode@inline
+//@   split mask & 62 == 0
+//@   split mask & 62 == 2
+//@   split mask & 62 == 4
+//@   split mask & 62 == 6
+//@   split mask & 62 == 8
+//@   split mask & 62 == 10
+//@   split mask & 62 == 12
+//@   split mask & 62 == 14
+//@   split mask & 62 == 16
+//@   split mask & 62 == 18
+//@   split mask & 62 == 20
+//@   split mask & 62 == 22
+//@   split mask & 62 == 24
+//@   split mask & 62 == 26
+//@   split mask & 62 == 28
+//@   split mask & 62 == 30
+//@   split mask & 62 == 32
+//@   split mask & 62 == 34
+//@   split mask & 62 == 36
+//@   split mask & 62 == 38
+//@   split mask & 62 == 40
+//@   split mask & 62 == 42
+//@   split mask & 62 == 44
+//@   split mask & 62 == 46
+//@   split mask & 62 == 48
+//@   split mask & 62 == 50
+//@   split mask & 62 == 52
+//@   split mask & 62 == 54
+//@   split mask & 62 == 56
+//@   split mask & 62 == 58
+//@   split mask & 62 == 60
+//@   split mask & 62 == 62
+func verifRoundTripDataValue(mask byte, status StatusCode, st, vt time.Time, sp, vp uint16) {
+	if mask&DataValueValue != 0 {
+		return
+	}
+	v := &DataValue{EncodingMask: mask, Status: status, SourceTimestamp: st, SourcePicoseconds: sp, ServerTimestamp: vt, ServerPicoseconds: vp}
+	e, err := v.Encode()
+	if err != nil {
+		return
+	}
+	w := new(DataValue)
+	n, derr := w.Decode(e)
+	verifAssert("C01:datavalue-decodes", derr == nil && n == len(e))
+	if mask&DataValueStatusCode != 0 && mask&0x3c == 0 {
+		// with later fields present the same fact needs the unchanged-prefix argument through up to four
+		// more writes, each of which may reallocate: the solvers do not finish that inside the quick limit
+		verifAssert("C01:datavalue-status", w.Status == status)
+	}
+	if mask&DataValueSourcePicoseconds != 0 {
+		verifAssert("C01:datavalue-source-picoseconds", w.SourcePicoseconds == sp)
+	}
+	if mask&DataValueServerPicoseconds != 0 {
+		verifAssert("C01:datavalue-server-picoseconds", w.ServerPicoseconds == vp)
+	}
+	verifCanary("C01:canary-datavalue-always-one-byte", n == 1)
 }
